@@ -128,6 +128,10 @@ func (*c03) Corpus() []any {
 	hp := []eng.Hook{hk("hp", 0, []string{"pre-upgrade", "post-upgrade"})}
 	out = append(out, hist(c12Op("install", 1, eng.Flags{}, hp, "a", "b"),
 		withK(c12Op("upgrade", 2, eng.Flags{Atomic: true}, hp, "a", "b", "c"), "patch", "ConfigMap/b")))
+	// ... and with well-behaved ROLLBACK hooks in the revision rolled back to (hr on pre- and post-rollback, default policy)
+	hr := []eng.Hook{hk("hr", 0, []string{"pre-rollback", "post-rollback"})}
+	out = append(out, hist(c12Op("install", 1, eng.Flags{}, hr, "a", "b"),
+		withK(c12Op("upgrade", 2, eng.Flags{Atomic: true}, hr, "a", "b"), "patch", "ConfigMap/b")))
 	// after the deletion phase: install {a,b}; upgrade --atomic to {a'} (drops b) whose WAIT fails => b is created again (no K6)
 	ad := *c12Op("upgrade", 2, eng.Flags{Atomic: true}, nil, "a")
 	ad.WaitFail = true
